@@ -116,7 +116,9 @@ def build_sampler(conf: dict, rec: psrun.Recorder | None, out_dir=None):
     c.update(conf)
     tgt = Target(c["n_dim"], c["target"], shift=c["shift"], support=c["support"], quant=c["quant"], slow=c["slow"])
     ev = c["evaluation"]
-    if ev == "vector":
+    if ev == "blobs_nodtype":   # the likelihood returns (logl, blob) but blobs_dtype is not configured
+        ll, vec, bd = tgt.logl_blob, False, None
+    elif ev == "vector":
         ll, vec, bd = tgt.logl_vector, True, None
     elif ev == "vector_reuse":
         ll, vec, bd = tgt.logl_vector_reuse, True, None
